@@ -718,6 +718,32 @@ Fixpoint gcache_run_all (tb : gtable) (c : gcache) (ops : list (N * vtree)) : li
   end.
 
 (* ------------------------------------------------------------------ *)
+(* 5d. Marker names of the root iterator (Iterator.RecursionSupport)     *)
+(* ------------------------------------------------------------------ *)
+
+(* iterator/iterator_root.go: RootObjectIterator.nextMarkerName is the name the
+   next marked object gets (getNamedLocalReference: names 0, 1, 2 ... in the
+   order in which the iteration meets the shared / cyclic objects).  Iterate
+   renews the two reference maps but does not touch the counter; the reset
+   point is Marshal itself: Session.NewIterator builds a NEW RootObjectIterator
+   for every call, so every document starts at 0.
+   Operation: the number of objects of the value that get a marker.
+   Observation: the names handed out, in document order. *)
+Fixpoint names_from (start : N) (k : nat) : list N :=
+  match k with
+  | O => []
+  | S k' => start :: names_from (N.succ start) k'
+  end.
+
+Definition marker_init : N := 0.
+(* Marshal: session.NewIterator(...) (counter 0), then Iterate *)
+Definition marker_call (next : N) (k : N) : N * list N :=
+  (0 + k, names_from 0 (N.to_nat k)).
+(* the same with ONE root iterator kept by the marshaler (what the reset is needed for) *)
+Definition marker_call_noreset (next : N) (k : N) : N * list N :=
+  (next + k, names_from next (N.to_nat k)).
+
+(* ------------------------------------------------------------------ *)
 (* 5b. Marshaler and unmarshaler as owners of their parts                *)
 (* ------------------------------------------------------------------ *)
 
@@ -748,8 +774,10 @@ Inductive reuse_case :=
 | CteEncHist (docs : list (list cev)) (seen : list (option N * bytes))
 | CacheHist (dynamic : bool) (ops : list ty) (seen : list cres)
     (* a hang ends the history: the instance is never used again *)
-| CacheGraphHist (tb : gtable) (ops : list (N * vtree)) (seen : list cres).
+| CacheGraphHist (tb : gtable) (ops : list (N * vtree)) (seen : list cres)
     (* marshaler histories over a table of (possibly self-referential) types *)
+| MarkerHist (ks : list N) (seen : list (list N)).
+    (* per marshaled value: how many of its objects are marked; observed: the marker names in the document, in order *)
 
 Definition rules_obs_eqb (a b : list event * option N) : bool :=
   list_eqb event_eqb (fst a) (fst b) && option_eqb N.eqb (snd a) (snd b).
@@ -792,4 +820,6 @@ Definition reuse_case_ok (k : reuse_case) : bool :=
       list_eqb cres_eqb (cache_run_all dynamic cache_init ops) seen
   | CacheGraphHist tb ops seen =>
       list_eqb cres_eqb (gcache_run_all tb gcache_init ops) seen
+  | MarkerHist ks seen =>
+      list_eqb (list_eqb N.eqb) (run_all marker_call marker_init ks) seen
   end.
